@@ -30,19 +30,27 @@ ASSUMPTIONS = [
 
 def RULE(tier):
     n = NMAX[tier]
-    full = 4 if tier == "quick" else 5
+    q = tier == "quick"
     return (
-        f"1-d: every length 0..{n} x EVERY chunking x every slice with start/stop in {{None}} U [-n-1,n+1], step in +-1..3|None, x value kinds "
-        f"{{scalar, exact-shape ndarray}} (n <= {full}: also float scalar, length-1 ndarray, extra leading axis, a dask value with EVERY chunking, a "
-        "value derived from the array itself); every int in [-n-1,n] x {int, float, 0-d ndarray, 0-d dask}; every index vector of length <= 3 "
-        "over [-n,n) (duplicates included) as list / ndarray / dask int array x {scalar, exact ndarray, length-1, dask value}; every boolean mask as "
-        "list / ndarray / dask array (bare key = where() path and inside a tuple = setitem_array path, 3 mask chunkings) / da.where(mask)[0] "
-        "(unknown size). 2-d: shapes (2,3),(3,2)" + (",(3,4),(2,2,2)" if tier == "thorough" else "") + " x EVERY chunking x every index "
-        "tuple over per-axis alphabets {ints, slices that hit every chunk edge with both step signs, int list with duplicates, bool list, dask "
-        "int / bool index, Ellipsis, None} x value kinds {scalar, exact, row (fewer dims), size-1 axis, extra leading axis, dask}; whole-array "
-        "boolean masks (all 64 masks, NumPy and dask). Oracle: blocks computed after the assignment assemble to the NumPy array after the same "
-        "assignment (value + dtype), every block has its declared shape, .chunks unchanged. non-trivial = an assigned axis has >= 2 chunks and "
-        "the selection is non-empty."
+        f"1-d: every length 0..{n} x EVERY chunking x every slice with start/stop in {{None}} U [-n-1,n+1], step in +-1..3|None, x value kinds: "
+        + ("n<=3 ALL kinds {int/float scalar, 0-d dask, exact ndarray, length-1 ndarray, extra leading axis, dask value with EVERY chunking, value derived "
+           "from the array itself}; n=4 {scalar, exact, dask value in 1-element chunks, self-derived}; n=5 exact ndarray" if q else
+           "n<=5 ALL kinds {int/float scalar, 0-d dask, exact ndarray, length-1 ndarray, extra leading axis, dask value with EVERY chunking, value derived "
+           "from the array itself}; n=6 common kinds; n=7 {scalar, exact, dask value, self-derived}")
+        + "; every int in [-n-1,n] x {int, float, 0-d ndarray, 0-d dask}; every index vector over [-n,n) (duplicates included) as list (length <= 3"
+        + (", n=5: <= 2" if q else ", n>=6: <= 2") + "), ndarray (length <= " + ("2" if q else "3") + ", n<=5) and dask int array (length <= "
+        + ("2, n<=4" if q else "3, n<=5") + ", chunked by 1 and whole) x {scalar, exact, length-1, extra axis, dask value}; every boolean mask (n<="
+        + ("5" if q else "6") + ") as list / ndarray (bare and in a tuple) / dask array (bare key = where() path and inside a tuple = setitem_array "
+        "path, mask chunked like x, whole and by 1) / da.where(mask)[0] (unknown size). 2-d: shapes (2,3),(3,2)"
+        + ("" if q else ",(3,4) and 3-d (2,2,2)") + " x EVERY chunking x every index tuple over per-axis alphabets {ints, slices that hit every "
+        "chunk edge with both step signs, int list with duplicates, int ndarray, bool list, bool ndarray, dask int index, dask bool index}, "
+        "plus the bare / Ellipsis / implicit-trailing-axis spellings and a small np.newaxis sub-alphabet, x value kinds {scalar, exact, length-1, "
+        "row (fewer dims), size-1 axis, extra leading axis, dask value}" + (" (pairs in which neither axis is the full slice: {scalar, exact, row})" if q else "")
+        + "; whole-array boolean masks (all 64 masks, dask; NumPy N-d masks must be refused). Oracle: blocks computed after the assignment "
+        "assemble to the NumPy array after the same assignment (value + dtype), every block has its declared shape, .chunks unchanged, the "
+        "wrapped source array is not modified. Thinned inside these bounds (see slice_mode / vec_plan / cases_of): index vectors on the larger n use "
+        "{scalar, exact} values only, index tuples with two array-like axes (a documented refusal) are kept at one in seven, the 3-d alphabet uses "
+        "every third slice. non-trivial = an assigned axis has >= 2 chunks and the selection is non-empty."
     )
 
 
